@@ -288,7 +288,8 @@ def r05_4(ctx):
                     else:
                         parts.append(ast.unparse(e))
                 flat(lst)
-                ok = parts == ["[c[0] for c in self.constraints]", "[self.objective]", "self.initial_keys"]
+                K = lambda t: Norm(None).key(ast.parse(t, mode="eval").body)
+                ok = [K(x) for x in parts] == [K("[c[0] for c in self.constraints]"), K("[self.objective]"), K("self.initial_keys")]
                 found += " with res=" + ast.unparse(res)
     ctx.check(ok, "Opti.minimize receives the accumulated objective", detail="packed list unpacked with the wrong offset", expected="res = placeholders(constraints + [objective] + initial_keys); Opti.minimize(self, res[len(constraints)])",
               found=found, fi=g, sample={"minimize": found})
